@@ -117,6 +117,25 @@ CHECKS = {
         note=TB_COMMON + "Exclusivity of sibling predicates over ALL sequences is not a Coq theorem here (string parsers are oracles; the identity layer is modelled under C16); it is established by evaluation of the real guards. Known findings F02a-e, F02o.",
         technique="Coq proof (order independence of exclusive walks under successor permutation) + exhaustive-per-node guard evaluation and permuted-order rebuilds on the implementation",
     ),
+    "C16": dict(
+        text=("Coq proofs, one per identity edge of the regenerated relation table (coverage of all edges is itself a computed theorem), over the pandas contains_ops and decorators "
+              "REGENERATED from source: for ALL abstract series - any tuple of answers of the pandas.api.types predicates (a superset of pandas dtypes), any list of value kinds "
+              "with flags, any length - child membership implies parent membership; the side conditions are exactly the recorded findings, each refuted with a computed witness "
+              "(categorical series of dates in Date not Object; existing relative path in File not Path). The model is validated against `series in T` for all 24 types on thousands "
+              "of abstracted series per run incl. every dtype x up to two value kinds; the numpy backend is judged by the oracle only."),
+        ref="DESIGN.md section 6 (C16)",
+        note=TB_COMMON + "Measured, not verified: per-kind isinstance/class-name/hasattr facts, astype(str) round trip, 'unsigned implies integer' for dtype facts. Abstraction in lib/Values.v (no adversarial objects). Known findings F16b, F16c; F16a repaired.",
+        technique="Coq proof per identity edge over an abstract series universe on predicates translated from source; extracted-model differential test over a bounded-exhaustive dtype x kind grid",
+    ),
+    "C11": dict(
+        text=("Coq proof over the regenerated pandas contains_ops: for the 18 shipped types whose predicate does not inspect a prefix of the rows, `seq in T` is identical for every "
+              "permutation of the rows and for repetition of the sequence, for all dtypes, values and lengths; the six prefix-testing types are refuted with computed witnesses "
+              "(recorded findings). Index labels and name are not part of the abstract series. detect_type / infer_type / membership invariance under all row permutations (n <= 4), "
+              "relabelling, renaming and k-fold repetition is checked on the implementation for pandas, numpy and list inputs."),
+        ref="DESIGN.md section 6 (C11)",
+        note=TB_COMMON + "Transfer to detect_type/infer_type is not proved (whole-column parsers such as pd.to_datetime are oracles); it is checked dynamically. Known findings F11a, F11b, F11np, F11list.",
+        technique="Coq proof (permutation / repetition invariance of translated predicates via Permutation lemmas) + exhaustive small-permutation oracle on the implementation",
+    ),
 }
 
 
